@@ -136,6 +136,9 @@ class LegacySparseDrugComboInteractionImpl:
         self.mult_gamma_proc = mult_gamma_proc
         # self.dummy_last = int(has_controls)
 
+        # generator to draw from; numpy's global functions are used while none is set
+        self.rng = None
+
         # data holders
         self.y = []
         self.num_mcmc_steps = 0
@@ -189,6 +192,10 @@ class LegacySparseDrugComboInteractionImpl:
     def n_obs(self):
         return len(self.y)
 
+    @property
+    def _rnd(self):
+        return np.random if self.rng is None else self.rng
+
     def _update(self, y, cl, dd1, dd2):
         n = self.n_obs()
         self.y.append(y)
@@ -221,7 +228,7 @@ class LegacySparseDrugComboInteractionImpl:
             if len(cidx) == 0:
                 # no data seen yet, sample from prior
                 stddev = 1.0 / np.sqrt(self.tau)
-                self.W[c] = np.random.normal(0.0, stddev)
+                self.W[c] = self._rnd.normal(0.0, stddev)
                 continue
 
             X = self.V2[dd1[cidx]] * self.V2[dd2[cidx]]
@@ -234,7 +241,9 @@ class LegacySparseDrugComboInteractionImpl:
             Q = (Xt @ X) * prec
             Q[np.diag_indices(self.D)] += self.tau
             try:
-                self.W[c] = sample_mvn_from_precision(Q, mu_part=mu_part)
+                self.W[c] = sample_mvn_from_precision(
+                    Q, mu_part=mu_part, rng=self.rng
+                )
 
                 # update Mu
                 self.Mu[cidx] += X @ self.W[c] - old_contrib
@@ -256,7 +265,7 @@ class LegacySparseDrugComboInteractionImpl:
             if len(idx1) + len(idx2) == 0:
                 # no data seen yet, sample from prior
                 stddev = 1.0 / np.sqrt(self.phi2[m] * self.eta2)
-                self.V2[m] = np.random.normal(0, stddev)
+                self.V2[m] = self._rnd.normal(0, stddev)
                 continue
 
             if len(idx1) == 0:
@@ -292,7 +301,9 @@ class LegacySparseDrugComboInteractionImpl:
             dix = np.diag_indices(self.D)
             Q[dix] += self.phi2[m] * self.eta2
             try:
-                self.V2[m] = sample_mvn_from_precision(Q, mu_part=mu_part)
+                self.V2[m] = sample_mvn_from_precision(
+                    Q, mu_part=mu_part, rng=self.rng
+                )
                 # self.V2[m] = np.clip(self.V2[m], -10.0, 10.0)
                 self.Mu[idx] += X @ self.V2[m] - old_contrib
             except:
@@ -300,31 +311,31 @@ class LegacySparseDrugComboInteractionImpl:
 
     def _prec_obs_step(self) -> None:
         if self.n_obs() == 0:
-            self.prec = np.random.gamma(self.a0, 1.0 / self.b0)
+            self.prec = self._rnd.gamma(self.a0, 1.0 / self.b0)
             return
         # self._reconstruct_Mu()
         sse = np.square(self.y - self.Mu).sum()
         an = self.a0 + 0.5 * self.n_obs()
         bn = self.b0 + 0.5 * sse
-        self.prec = np.random.gamma(an, 1.0 / (bn + 1e-3))
+        self.prec = self._rnd.gamma(an, 1.0 / (bn + 1e-3))
         C = 1.0 / np.sqrt(1 + self.n_obs())
         self.last_rmse = np.sqrt(np.square(self.y - self.Mu).mean())
         self.prec = np.clip(self.prec, C, 1e6)
 
     def _prec_V2_step(self):
         if self.local_shrinkage:
-            phiaux2 = np.random.gamma(1.0, 1.0 / (1.0 + self.phi2))
+            phiaux2 = self._rnd.gamma(1.0, 1.0 / (1.0 + self.phi2))
             bn = phiaux2 + 0.5 * self.eta2 * self.V2**2
-            self.phi2 = np.random.gamma(1.0, 1.0 / (bn + 1e-3))
+            self.phi2 = self._rnd.gamma(1.0, 1.0 / (bn + 1e-3))
             N1 = np.array([len(self.dd1_idxs[c]) for c in range(self.n_drugdoses)])
             N2 = np.array([len(self.dd2_idxs[c]) for c in range(self.n_drugdoses)])
             C = 1.0 / np.sqrt(1.0 + N1 + N2)
             self.phi2 = np.clip(self.phi2, C[:, None], 1e6)
 
         an = 0.5 * (1 + self.n_drugdoses)
-        etaaux2 = np.random.gamma(1.0, 1.0 / (1.0 + self.eta2))
+        etaaux2 = self._rnd.gamma(1.0, 1.0 / (1.0 + self.eta2))
         bn = etaaux2 + 0.5 * (self.phi2 * self.V2**2).sum(0)
-        self.eta2 = np.random.gamma(an, 1.0 / (bn + 1e-3))
+        self.eta2 = self._rnd.gamma(an, 1.0 / (bn + 1e-3))
         C = 1.0 / np.sqrt(1 + self.n_obs())
         self.eta2 = np.clip(self.eta2, C, 1e6)
 
@@ -335,20 +346,20 @@ class LegacySparseDrugComboInteractionImpl:
             tmp = np.cumprod(self.gam) / self.gam[0]
             an = 2 + 0.5 * self.n_clines * self.D
             bn = 1 + 0.5 * (tmp * parssq).sum()
-            self.gam[0] = np.random.gamma(an, 1.0 / (bn + 1e-3))
+            self.gam[0] = self._rnd.gamma(an, 1.0 / (bn + 1e-3))
             # self.gam[0] = np.clip(self.gam[0], 1.0, 10000.0)
             # sample all others
             for d in range(1, self.D):
                 tmp = np.cumprod(self.gam)[d:] / self.gam[d]
                 an = 3 + 0.5 * self.n_clines * (self.D - d)
                 bn = 1 + 0.5 * (tmp * parssq[:, d:]).sum()
-                self.gam[d] = np.random.gamma(an, 1.0 / (bn + 1e-3))
+                self.gam[d] = self._rnd.gamma(an, 1.0 / (bn + 1e-3))
                 # self.gam[d] = np.clip(self.gam[d], 0.5, 100.0)
             self.tau = np.cumprod(self.gam)
         else:
             an = self.a0 + 0.5 * self.n_clines
             bn = self.b0 + 0.5 * parssq.sum(0)
-            self.tau = np.random.gamma(an, 1.0 / (bn + 1e-3))
+            self.tau = self._rnd.gamma(an, 1.0 / (bn + 1e-3))
         C = 1.0 / np.sqrt(1 + self.n_obs())
         self.tau = np.clip(self.tau, C, 1e6)
 
@@ -356,7 +367,7 @@ class LegacySparseDrugComboInteractionImpl:
         # W0 precision
         an = self.a0 + 0.5 * self.n_clines
         bn = self.b0 + 0.5 * (self.W0**2).sum()
-        self.tau0 = np.random.gamma(an, 1.0 / (bn + 1e-3))  # +0.01 for stability
+        self.tau0 = self._rnd.gamma(an, 1.0 / (bn + 1e-3))  # +0.01 for stability
         C = 1.0 / np.sqrt(1 + self.n_obs())
         self.tau0 = np.clip(self.tau0, C, 1e6)
 
@@ -423,6 +434,7 @@ class SparseDrugComboInteraction(BayesianModel, MCMCModel):
 
     def set_rng(self, rng: np.random.Generator):
         self._rng = rng
+        self.wrapped_model.rng = rng
 
     @property
     def rng(self) -> np.random.Generator:
